@@ -208,6 +208,15 @@ func (w *World) Fresh() (acraStore, func(), error) {
 	return w.open(keystore.WithoutCache, false)
 }
 
+// HandleFor returns the handle under test itself (same == true; what the running process sees) or a
+// Fresh one (what a restarted process sees). Used by C08's same-handle follow-ups.
+func (w *World) HandleFor(same bool) (acraStore, func(), error) {
+	if same {
+		return w.H, func() {}, nil
+	}
+	return w.Fresh()
+}
+
 func (w *World) open(cache int, wrap bool) (acraStore, func(), error) {
 	switch w.Format {
 	case V1:
